@@ -115,6 +115,17 @@ class AObj:
         return f'<{self.cls} {self.attrs!r}>'
 
 
+class ADictObj(ADict, AObj):
+    """an instance of a repository class derived from dict: a heap dict (every dict operation applies) that also carries attributes and the class's methods (__missing__)"""
+
+    def __init__(self, cls):
+        ADict.__init__(self)
+        AObj.__init__(self, cls)
+
+    def __repr__(self):
+        return f'<{self.cls} {self.d!r} {self.attrs!r}>'
+
+
 class AKeys(list):
     """the keys view of a dict (an ordered list that also supports the set operators)"""
 
@@ -899,6 +910,10 @@ class Interp:
                     if fac is not None:
                         base.d[key] = self.apply(fac, [], e)
                         return base.d[key]
+                    if isinstance(base, ADictObj):
+                        home = self.class_home(base.cls)
+                        if home is not None and f'{base.cls}.__missing__' in home[0].funcs:
+                            return self.call_object_method(base, '__missing__', [key], e)
                     raise RaiseSig('KeyError', (key,), e)
                 return base.d[key]
             if isinstance(base, (AList, str)) and isinstance(key, float):
@@ -951,6 +966,8 @@ class Interp:
                 return ('hostattr', f'{base[1]}.{e.attr}')
             if isinstance(base, tuple) and base and base[0] == 'hostattr':
                 return ('hostattr', f'{base[1]}.{e.attr}')
+            if isinstance(base, ADictObj) and (e.attr in base.attrs or e.attr in self.class_constants(base.cls)):
+                return base.attrs[e.attr] if e.attr in base.attrs else self.class_constants(base.cls)[e.attr]
             if isinstance(base, (ARegex, AList, ADict, str)) and not isinstance(getattr(e, 'ctx', None), ast.Store):
                 return ('bound', base, e.attr)
             if isinstance(base, CMatch):
@@ -1333,7 +1350,7 @@ class Interp:
                 if cname.endswith(('Error', 'Exception')):
                     return None
                 bases = [norm(b) for b in node.bases]
-                ok_bases = all(b in ('object', 'NamedTuple', 'typing.NamedTuple') for b in bases)
+                ok_bases = all(b in ('object', 'NamedTuple', 'typing.NamedTuple', 'dict') for b in bases)
                 return (m, node) if ok_bases else None
         return None
 
@@ -1455,7 +1472,7 @@ class Interp:
         if home is None:
             return None
         m, node = home
-        obj = AObj(cname)
+        obj = ADictObj(cname) if any(norm(b) == 'dict' for b in node.bases) else AObj(cname)
         kind = self.class_kind(node)
         if node.decorator_list and kind == 'plain':
             raise Unrecognised(self.rule, f'class {cname} has a decorator that is not modelled', m.rel)
